@@ -27,6 +27,12 @@ CHECKS = {
     "C05": ("post-call supersession assertion (every instance entered before the call has a cancelled context) + quiescent survivor judgement (count, context lineage tag, state vs GetState) under 3-5 concurrent drivers",
             "Sequential and concurrent histories with self-exiting, failing (retry timers) and run-until-cancelled instances; calls paced around the backoff period so timer callbacks race with them.",
             "Context operations are serialised in one driver so 'last context' is defined; liveness-style sub-checks are skipped once a root context was cancelled behind the container's back.", "4/C05"),
+    "C06": ("reference-model monitor stepped beside Keyed/KeyedRefCount over seed-generated call sequences (all return values + key set after every call), timer behaviour judged only early (< delay/2) or late (3 delays + quiescence); gated removal-timer template; concurrent held-reference probes",
+            "Sequential histories with and without a 30 ms release delay; a fired removal-timer callback is held before the mutex while the key is re-requested; concurrent AddKeyRef/Release races are judged by probing the key while a reference is certainly held.",
+            "Wall-clock is used only as a guard that drops a history as inconclusive, never to decide a violation.", "4/C06"),
+    "C07": ("per key/epoch active-instance assertion at every entry + post-removal and quiescent survivor checks + retry obligations at settled states; gated stale-timer, delayed-removal and retry-inside-backoff templates",
+            "Burst histories over 1-4 keys with slow-exiting, failing (1 ms backoff) and succeeding routines; templates make the timer-sensitive clauses deterministic.",
+            "Retry obligations are not judged across context changes (a context change may drop a pending retry).", "4/C07"),
     "C11": ("single-winner / by-result agreement monitor + porcupine single-assignment model + interval oracle for PromiseContainer replacements; spinning decided by counting Broadcast critical sections; quiescence check for blocked awaiters",
             "Concurrent setters/awaiters with every interruption source and sentinel error values; container awaiters are judged against the intervals in which each promise was current and resolved.",
             "Values are unique per SetResult; two recorded known findings (container ignores errCh / cancelCh while a promise is pending) are matched by exact signature.", "4/C11"),
